@@ -1,6 +1,6 @@
 /-
 `Expr.diff` is the analytic partial derivative (Mathlib `HasDerivAt`) on the fragment
-`+ − × ÷ ^ℤ sin cos exp`, wherever the expression is defined.
+`+ − × ÷ ^ℤ sin cos exp log sqrt tan sinh cosh atan asin acos`, wherever the expression is defined.
 -/
 import FormakVerif.Model.Diff
 import Mathlib.Analysis.Calculus.Deriv.ZPow
@@ -9,6 +9,11 @@ import Mathlib.Analysis.Calculus.Deriv.Mul
 import Mathlib.Analysis.Calculus.Deriv.Add
 import Mathlib.Analysis.SpecialFunctions.Trigonometric.Deriv
 import Mathlib.Analysis.SpecialFunctions.ExpDeriv
+import Mathlib.Analysis.SpecialFunctions.Log.Deriv
+import Mathlib.Analysis.SpecialFunctions.Sqrt
+import Mathlib.Analysis.SpecialFunctions.Trigonometric.ArctanDeriv
+import Mathlib.Analysis.SpecialFunctions.Trigonometric.DerivHyp
+import Mathlib.Analysis.SpecialFunctions.Trigonometric.InverseDeriv
 
 namespace FormakVerif
 
@@ -26,10 +31,18 @@ noncomputable def evalR (ρ : Name → ℝ) : Expr → ℝ
     if f = "sin" then Real.sin (evalR ρ a)
     else if f = "cos" then Real.cos (evalR ρ a)
     else if f = "exp" then Real.exp (evalR ρ a)
+    else if f = "log" then Real.log (evalR ρ a)
+    else if f = "sqrt" then Real.sqrt (evalR ρ a)
+    else if f = "tan" then Real.tan (evalR ρ a)
+    else if f = "sinh" then Real.sinh (evalR ρ a)
+    else if f = "cosh" then Real.cosh (evalR ρ a)
+    else if f = "atan" then Real.arctan (evalR ρ a)
+    else if f = "asin" then Real.arcsin (evalR ρ a)
+    else if f = "acos" then Real.arccos (evalR ρ a)
     else 0
 
 /-- every divisor and every base of a negative power is non-zero, every function is one of the
-supported ones -/
+supported ones inside its domain of differentiability (`log`, `sqrt`: positive argument; `tan`: non-zero cosine; `asin`, `acos`: argument ≠ ±1) -/
 def DefinedR (ρ : Name → ℝ) : Expr → Prop
   | .var _ => True
   | .num _ => True
@@ -38,7 +51,9 @@ def DefinedR (ρ : Name → ℝ) : Expr → Prop
   | .neg a => DefinedR ρ a
   | .div a b => DefinedR ρ a ∧ DefinedR ρ b ∧ evalR ρ b ≠ 0
   | .pow a k => DefinedR ρ a ∧ (evalR ρ a ≠ 0 ∨ 1 ≤ k ∨ k = 0)
-  | .app f a => DefinedR ρ a ∧ (f = "sin" ∨ f = "cos" ∨ f = "exp")
+  | .app f a => DefinedR ρ a ∧ (f = "sin" ∨ f = "cos" ∨ f = "exp" ∨ (f = "log" ∧ 0 < evalR ρ a) ∨
+      (f = "sqrt" ∧ 0 < evalR ρ a) ∨ (f = "tan" ∧ Real.cos (evalR ρ a) ≠ 0) ∨ f = "sinh" ∨ f = "cosh" ∨ f = "atan" ∨
+      (f = "asin" ∧ evalR ρ a ≠ -1 ∧ evalR ρ a ≠ 1) ∨ (f = "acos" ∧ evalR ρ a ≠ -1 ∧ evalR ρ a ≠ 1))
 
 /-- **Correctness of the model's differentiation.** At every point where `e` is defined, the function
 `t ↦ e[x := t]` has derivative `(e.diff x)` evaluated at the point. -/
@@ -100,7 +115,8 @@ theorem diff_correct (ρ : Name → ℝ) (x : Name) (e : Expr) (h : DefinedR ρ 
       rw [hd]
       exact hc
   | app f a iha =>
-    rcases h.2 with rfl | rfl | rfl
+    rcases h.2 with rfl | rfl | rfl | ⟨rfl, hpos⟩ | ⟨rfl, hpos⟩ | ⟨rfl, hcos⟩ | rfl | rfl | rfl |
+      ⟨rfl, hm, hp⟩ | ⟨rfl, hm, hp⟩
     · have := (iha h.1).sin
       simp only [hupd] at this
       have hd : evalR ρ ((Expr.app "sin" a).diff x) = Real.cos (evalR ρ a) * evalR ρ (a.diff x) := by
@@ -122,6 +138,75 @@ theorem diff_correct (ρ : Name → ℝ) (x : Name) (e : Expr) (h : DefinedR ρ 
       have hf : (fun t => evalR (Function.update ρ x t) (Expr.app "exp" a)) =
           fun t => Real.exp (evalR (Function.update ρ x t) a) := by funext t; simp [evalR]
       rw [hd, hf]; exact this
+    · have := (iha h.1).log (by rw [hupd]; exact ne_of_gt hpos)
+      simp only [hupd] at this
+      have hd : evalR ρ ((Expr.app "log" a).diff x) = evalR ρ (a.diff x) / evalR ρ a := by
+        simp [Expr.diff, evalR]
+      have hf : (fun t => evalR (Function.update ρ x t) (Expr.app "log" a)) =
+          fun t => Real.log (evalR (Function.update ρ x t) a) := by funext t; simp [evalR]
+      rw [hd, hf]; exact this
+    · have := (iha h.1).sqrt (by rw [hupd]; exact ne_of_gt hpos)
+      simp only [hupd] at this
+      have hd : evalR ρ ((Expr.app "sqrt" a).diff x) = evalR ρ (a.diff x) / (2 * Real.sqrt (evalR ρ a)) := by
+        simp [Expr.diff, evalR]
+      have hf : (fun t => evalR (Function.update ρ x t) (Expr.app "sqrt" a)) =
+          fun t => Real.sqrt (evalR (Function.update ρ x t) a) := by funext t; simp [evalR]
+      rw [hd, hf]; exact this
+    · have := (Real.hasDerivAt_tan (x := evalR (Function.update ρ x (ρ x)) a) (by rw [hupd]; exact hcos)).comp (ρ x) (iha h.1)
+      simp only [hupd] at this
+      have h1 : (1 : ℝ) + Real.tan (evalR ρ a) ^ 2 = 1 / Real.cos (evalR ρ a) ^ 2 := by
+        rw [Real.tan_eq_sin_div_cos]
+        field_simp
+        have := Real.sin_sq_add_cos_sq (evalR ρ a)
+        linarith
+      have e1 : evalR ρ ((Expr.app "tan" a).diff x) = (1 + Real.tan (evalR ρ a) ^ 2) * evalR ρ (a.diff x) := by
+        simp [Expr.diff, evalR]
+      have hf : (fun t => evalR (Function.update ρ x t) (Expr.app "tan" a)) =
+          Real.tan ∘ fun t => evalR (Function.update ρ x t) a := by funext t; simp [evalR]
+      rw [e1, h1, hf]; exact this
+    · have := (iha h.1).sinh
+      simp only [hupd] at this
+      have hd : evalR ρ ((Expr.app "sinh" a).diff x) = Real.cosh (evalR ρ a) * evalR ρ (a.diff x) := by
+        simp [Expr.diff, evalR]
+      have hf : (fun t => evalR (Function.update ρ x t) (Expr.app "sinh" a)) =
+          fun t => Real.sinh (evalR (Function.update ρ x t) a) := by funext t; simp [evalR]
+      rw [hd, hf]; exact this
+    · have := (iha h.1).cosh
+      simp only [hupd] at this
+      have hd : evalR ρ ((Expr.app "cosh" a).diff x) = Real.sinh (evalR ρ a) * evalR ρ (a.diff x) := by
+        simp [Expr.diff, evalR]
+      have hf : (fun t => evalR (Function.update ρ x t) (Expr.app "cosh" a)) =
+          fun t => Real.cosh (evalR (Function.update ρ x t) a) := by funext t; simp [evalR]
+      rw [hd, hf]; exact this
+    · have := (iha h.1).arctan
+      simp only [hupd] at this
+      have hd : evalR ρ ((Expr.app "atan" a).diff x) = 1 / (1 + evalR ρ a ^ 2) * evalR ρ (a.diff x) := by
+        have e1 : evalR ρ ((Expr.app "atan" a).diff x) = evalR ρ (a.diff x) / (1 + evalR ρ a ^ 2) := by
+          simp [Expr.diff, evalR]
+        rw [e1]; ring
+      have hf : (fun t => evalR (Function.update ρ x t) (Expr.app "atan" a)) =
+          fun t => Real.arctan (evalR (Function.update ρ x t) a) := by funext t; simp [evalR]
+      rw [hd, hf]; exact this
+    · have := (Real.hasDerivAt_arcsin (x := evalR (Function.update ρ x (ρ x)) a) (by rw [hupd]; exact hm)
+        (by rw [hupd]; exact hp)).comp (ρ x) (iha h.1)
+      simp only [hupd] at this
+      have e1 : evalR ρ ((Expr.app "asin" a).diff x) = 1 / Real.sqrt (1 - evalR ρ a ^ 2) * evalR ρ (a.diff x) := by
+        have e0 : evalR ρ ((Expr.app "asin" a).diff x) = evalR ρ (a.diff x) / Real.sqrt (1 + -(evalR ρ a ^ 2)) := by
+          simp [Expr.diff, evalR]
+        rw [e0, ← sub_eq_add_neg]; ring
+      have hf : (fun t => evalR (Function.update ρ x t) (Expr.app "asin" a)) =
+          Real.arcsin ∘ fun t => evalR (Function.update ρ x t) a := by funext t; simp [evalR]
+      rw [e1, hf]; exact this
+    · have := (Real.hasDerivAt_arccos (x := evalR (Function.update ρ x (ρ x)) a) (by rw [hupd]; exact hm)
+        (by rw [hupd]; exact hp)).comp (ρ x) (iha h.1)
+      simp only [hupd] at this
+      have e1 : evalR ρ ((Expr.app "acos" a).diff x) = -(1 / Real.sqrt (1 - evalR ρ a ^ 2)) * evalR ρ (a.diff x) := by
+        have e0 : evalR ρ ((Expr.app "acos" a).diff x) = -(evalR ρ (a.diff x) / Real.sqrt (1 + -(evalR ρ a ^ 2))) := by
+          simp [Expr.diff, evalR]
+        rw [e0, ← sub_eq_add_neg]; ring
+      have hf : (fun t => evalR (Function.update ρ x t) (Expr.app "acos" a)) =
+          Real.arccos ∘ fun t => evalR (Function.update ρ x t) a := by funext t; simp [evalR]
+      rw [e1, hf]; exact this
 
 end FormakVerif
 
